@@ -8,6 +8,10 @@ class Unknown(Exception):
     pass
 
 
+class WouldRaise(Exception):
+    """evaluating the condition on these concrete request values raises (e.g. '<' between str and int)"""
+
+
 CMP = {"cmpEq": lambda a, b: a == b, "cmpNotEq": lambda a, b: a != b, "cmpLt": lambda a, b: a < b, "cmpLtE": lambda a, b: a <= b,
        "cmpGt": lambda a, b: a > b, "cmpGtE": lambda a, b: a >= b, "cmpIn": lambda a, b: a in b, "cmpNotIn": lambda a, b: a not in b}
 BIN = {"binAdd": lambda a, b: a + b, "binSub": lambda a, b: a - b, "binMult": lambda a, b: a * b, "binPow": lambda a, b: a ** b,
@@ -29,7 +33,9 @@ def concretize(k, env, ce: consteval.CE):
         a, b = concretize(k[1], env, ce), concretize(k[2], env, ce)
         try:
             return CMP[h](a, b)
-        except TypeError:
+        except TypeError as ex:
+            if all(isinstance(x, (int, str, bool, float, tuple, list)) for x in (a, b)):
+                raise WouldRaise(f"TypeError: {ex}")
             raise Unknown("uncomparable")
     if h in BIN and len(k) == 3:
         return BIN[h](concretize(k[1], env, ce), concretize(k[2], env, ce))
